@@ -64,6 +64,27 @@ type c18Sub struct {
 	KeepEdges [][2]int `json:"keep_edges"`
 	RmNodes   []int    `json:"rm_nodes"`
 	RmEdges   [][2]int `json:"rm_edges"`
+	Nest      *c18Nest `json:"nest,omitempty"`
+}
+
+// c18Nest: a second subgraph step applied to the Subgraph returned by the
+// first one (a library result handed back as input graph). Nodes and edges
+// are named by their identifiers in the case's graph and are translated into
+// the first subgraph's numbering through its (verified) NodeMap/EdgeMap.
+type c18Nest struct {
+	First int      `json:"first"` // 0: on the SubgraphKeep result, 1: on the SubgraphRemove result
+	Op    int      `json:"op"`    // 0 SubgraphKeep, 1 SubgraphRemove
+	Nodes []int    `json:"nodes"`
+	Edges [][2]int `json:"edges"`
+	Nil   bool     `json:"nil,omitempty"` // empty lists are passed as nil slices
+}
+
+// c18EqDelta describes a partner for Equal as a change of the case's graph:
+// entries {node, index, new target} are set, then (Shuf != 0) every list is
+// shuffled with that seed.
+type c18EqDelta struct {
+	Set  [][3]int `json:"set"`
+	Shuf uint64   `json:"shuf,omitempty"`
 }
 
 type c18Case struct {
@@ -83,13 +104,17 @@ type c18Case struct {
 	// with cap == len; 1 all lists back to back in one array, Out(i) is a
 	// sub-slice whose capacity runs over the following lists; 2 the same with
 	// a spare tail of canaries; 3 as 2 but laid out in reverse node order.
-	Lay  int       `json:"lay,omitempty"`
-	Eq   [][][]int `json:"eq,omitempty"` // partners for Equal
-	Sub  *c18Sub   `json:"sub,omitempty"`
-	Dot  *c18Dot   `json:"dot,omitempty"`
-	Ops  [][2]int  `json:"ops,omitempty"`  // marks history: {op, id}
-	Zero bool      `json:"zero,omitempty"` // marks history starts from the zero value, not NewNodeMarks()
-	S    []byte    `json:"s,omitempty"`    // DotString argument
+	Lay int          `json:"lay,omitempty"`
+	Eq  [][][]int    `json:"eq,omitempty"`  // partners for Equal
+	EqD []c18EqDelta `json:"eqd,omitempty"` // partners for Equal given as changes of the graph
+	// Feed != 0: results of the library (simplified graph, SCC graph, BiGraph,
+	// Subgraph) are handed back to it as input graphs; the seed picks which.
+	Feed uint64   `json:"feed,omitempty"`
+	Sub  *c18Sub  `json:"sub,omitempty"`
+	Dot  *c18Dot  `json:"dot,omitempty"`
+	Ops  [][2]int `json:"ops,omitempty"`  // marks history: {op, id}
+	Zero bool     `json:"zero,omitempty"` // marks history starts from the zero value, not NewNodeMarks()
+	S    []byte   `json:"s,omitempty"`    // DotString argument
 
 	noDistinct bool // bulk enumeration: do not store a hash per case
 }
@@ -293,6 +318,7 @@ func (st *c18Store) verify(adj [][]int) (kind, msg string) {
 
 // c18J judges one graph case.
 type c18J struct {
+	noteOnly string // non-empty: findings are notes under this name, not violations
 	w      *mon.W
 	c      *c18Case
 	adj    [][]int // pristine; every reference is computed from it
@@ -380,10 +406,24 @@ func (j *c18J) desc() string {
 	if j.c.Kind == "large" {
 		return fmt.Sprintf("graph %s(n=%d,param=%d)", j.c.Shape, j.c.N, j.c.Param)
 	}
+	if j.n+j.m > 400 {
+		k := 0
+		for tot := 0; k < j.n && tot < 200; k++ {
+			tot += 1 + len(j.adj[k])
+		}
+		return fmt.Sprintf("graph of %d nodes, %d edges (complete in the case record), adj[:%d]=%v", j.n, j.m, k, j.adj[:k])
+	}
 	return fmt.Sprintf("adj=%v", j.adj)
 }
 
 func (j *c18J) bad(kind, msg string) {
+	if j.noteOnly != "" {
+		// a second look at a result after the caller has overwritten the
+		// slices it had passed: the statement does not say whether a
+		// Subgraph may keep referring to them, so this is recorded only
+		j.w.Note(j.noteOnly)
+		return
+	}
 	j.nbad++
 	j.w.Violate(kind, c18Printable(msg)+"; "+j.desc(), j.c)
 }
@@ -560,6 +600,9 @@ func (j *c18J) run() {
 	}
 	if c.Parts&c18pDot != 0 && c.Dot != nil {
 		j.dot()
+	}
+	if c.Feed != 0 && j.small {
+		j.feed()
 	}
 	if c.noDistinct {
 	} else if j.small {
@@ -1093,66 +1136,12 @@ func (j *c18J) bi() {
 func (j *c18J) equal() {
 	w := j.w
 	for _, adj2 := range j.c.Eq {
-		want := ref.GEqualDef(j.adj, adj2)
-		// classes
-		if len(adj2) == len(j.adj) {
-			ident, sameLen, sameSets := true, true, true
-			for i := range adj2 {
-				if !c18EqInts(adj2[i], j.adj[i]) {
-					ident = false
-				}
-				if len(adj2[i]) != len(j.adj[i]) {
-					sameLen = false
-				}
-				for _, x := range adj2[i] {
-					if !c18Has(j.adj[i], x) {
-						sameSets = false
-					}
-				}
-				for _, x := range j.adj[i] {
-					if !c18Has(adj2[i], x) {
-						sameSets = false
-					}
-				}
-			}
-			w.HitIf(want && !ident, "equal-true-permuted-lists")
-			w.HitIf(!want && sameLen && sameSets, "equal-same-set-different-multiset")
-			w.HitIf(!want && sameLen && !sameSets, "equal-false-same-lengths")
-		} else {
-			w.Hit("equal-different-node-count")
+		j.equalOne(adj2)
+	}
+	for _, d := range j.c.EqD {
+		if adj2 := c18ApplyDelta(j.adj, d); adj2 != nil {
+			j.equalOne(adj2)
 		}
-		w.HitIf(want, "equal-true")
-		lay := 0
-		if j.st != nil {
-			lay = j.st.lay
-		}
-		st2 := c18NewStore(adj2, lay)
-		if lay != 0 && len(adj2) == len(j.adj) {
-			// a scratch buffer grown out of one graph's list would run over the
-			// lists stored behind it
-			over := false
-			for i := range adj2 {
-				if len(adj2[i]) == len(j.adj[i]) && !c18EqInts(adj2[i], j.adj[i]) {
-					over = over || j.st.spareOver(i, len(adj2[i])) || st2.spareOver(i, len(adj2[i]))
-				}
-			}
-			w.HitIf(over, "equal-packed-permuted-list-before-other-lists")
-		}
-		j.st2, j.adj2 = st2, adj2
-		ctr2 := &c18G{}
-		b2 := 16*int64(len(adj2)+j.m+4) + 64 + j.budget
-		mk2 := func() graph.Graph {
-			*ctr2 = c18G{budget: b2}
-			return c18Wrap(j.rep(), st2.lists, ctr2)
-		}
-		var got, got2 bool
-		if j.call("Equal", func() { got = graph.Equal(j.G(), mk2()) }) && got != want {
-			j.bad("equal", fmt.Sprintf("Equal(g, %v)=%v, comparing adjacency lists as multisets gives %v", adj2, got, want))
-		}
-		if j.call("Equal", func() { got2 = graph.Equal(mk2(), j.G()) }) && got2 != want {
-			j.bad("equal", fmt.Sprintf("Equal(%v, g)=%v, comparing adjacency lists as multisets gives %v", adj2, got2, want))
-		}
-		j.st2, j.adj2 = nil, nil
 	}
 	// the very same graph value as both arguments
 	w.Hit("equal-same-value-twice")
@@ -1160,6 +1149,213 @@ func (j *c18J) equal() {
 	if j.call("Equal(g,g)", func() { g := j.G(); same = graph.Equal(g, g) }) && !same {
 		j.bad("equal", "Equal(g, g)=false for the same graph value as both arguments")
 	}
+}
+
+// c18ApplyDelta builds the partner graph a delta describes (nil when the
+// delta does not fit the graph).
+func c18ApplyDelta(adj [][]int, d c18EqDelta) [][]int {
+	out := c18CloneAdj(adj)
+	for _, e := range d.Set {
+		if e[0] < 0 || e[0] >= len(out) || e[1] < 0 || e[1] >= len(out[e[0]]) || e[2] < 0 || e[2] >= len(out) {
+			return nil
+		}
+		out[e[0]][e[1]] = e[2]
+	}
+	if d.Shuf != 0 {
+		rng := mon.NewRand(d.Shuf, 0x18e9)
+		for _, l := range out {
+			if len(l) > 1 {
+				rng.ShuffleI(l)
+			}
+		}
+	}
+	return out
+}
+
+// c18SortedCopy returns a sorted copy of l.
+func c18SortedCopy(l []int) []int {
+	x := append(make([]int, 0, len(l)), l...)
+	sort.Ints(x)
+	return x
+}
+
+// c18EqClasses records the classes of a pair of graphs handed to Equal
+// (inputs only). All of them describe pairs that are NOT equal but agree in
+// some summary of the lists an implementation could be tempted to compare
+// instead of the multisets.
+func c18EqClasses(w *mon.W, a, b [][]int, want bool) {
+	if len(a) != len(b) {
+		w.Hit("equal-different-node-count")
+		return
+	}
+	ident, sameLen, sameSets := true, true, true
+	var sumEq, xorEq, sqEq, resEq, shift64 bool
+	m := 0
+	for i := range b {
+		m += len(a[i])
+		if c18EqInts(a[i], b[i]) {
+			continue
+		}
+		ident = false
+		if len(a[i]) != len(b[i]) {
+			sameLen = false
+			continue
+		}
+		x, y := c18SortedCopy(a[i]), c18SortedCopy(b[i])
+		if c18EqInts(x, y) {
+			continue
+		}
+		// the two lists differ as multisets: which summaries do they share?
+		var onlyX, onlyY []int // multiset differences
+		setsEq := true
+		for p, q := 0, 0; p < len(x) || q < len(y); {
+			switch {
+			case q >= len(y) || (p < len(x) && x[p] < y[q]):
+				if p == 0 || x[p-1] != x[p] {
+					setsEq = setsEq && sort.SearchInts(y, x[p]) < len(y) && y[sort.SearchInts(y, x[p])] == x[p]
+				}
+				onlyX = append(onlyX, x[p])
+				p++
+			case p >= len(x) || y[q] < x[p]:
+				if q == 0 || y[q-1] != y[q] {
+					setsEq = setsEq && sort.SearchInts(x, y[q]) < len(x) && x[sort.SearchInts(x, y[q])] == y[q]
+				}
+				onlyY = append(onlyY, y[q])
+				q++
+			default:
+				p++
+				q++
+			}
+		}
+		sameSets = sameSets && setsEq
+		var s1, s2, x1, x2, q1, q2, m1, m2 uint64
+		for k := range x {
+			s1 += uint64(x[k])
+			s2 += uint64(y[k])
+			x1 ^= uint64(x[k])
+			x2 ^= uint64(y[k])
+			q1 += uint64(x[k]) * uint64(x[k])
+			q2 += uint64(y[k]) * uint64(y[k])
+			m1 |= 1 << (uint(x[k]) % 64)
+			m2 |= 1 << (uint(y[k]) % 64)
+		}
+		sumEq = sumEq || s1 == s2
+		xorEq = xorEq || x1 == x2
+		sqEq = sqEq || (s1 == s2 && q1 == q2)
+		resEq = resEq || m1 == m2
+		if len(onlyX) == 1 && (onlyX[0]-onlyY[0])%64 == 0 {
+			shift64 = true
+		}
+	}
+	w.HitIf(want && !ident, "equal-true-permuted-lists")
+	w.HitIf(!want && sameLen && sameSets, "equal-same-set-different-multiset")
+	w.HitIf(!want && sameLen && !sameSets, "equal-false-same-lengths")
+	w.HitIf(sumEq, "equal-false-lists-of-same-length-and-sum")
+	w.HitIf(xorEq, "equal-false-lists-of-same-length-and-xor")
+	w.HitIf(sqEq, "equal-false-lists-of-same-sum-and-sum-of-squares")
+	w.HitIf(resEq, "equal-false-lists-with-same-residues-mod-64")
+	w.HitIf(shift64, "equal-false-one-target-moved-by-multiple-of-64")
+	if !want && sameLen && m <= 1<<16 {
+		// the same targets overall, distributed differently over the nodes
+		fa := make([]int, 0, m)
+		fb := make([]int, 0, m)
+		for i := range a {
+			fa = append(fa, a[i]...)
+			fb = append(fb, b[i]...)
+		}
+		sort.Ints(fa)
+		sort.Ints(fb)
+		w.HitIf(c18EqInts(fa, fb), "equal-false-same-targets-overall-different-per-node")
+	}
+	if want || !ident {
+		mx := 0
+		for i := range a {
+			for _, v := range a[i] {
+				if v > mx {
+					mx = v
+				}
+			}
+		}
+		w.HitIf(mx >= 64, "equal-target-id>=64")
+		w.HitIf(mx >= 65536, "equal-target-id>=65536")
+	}
+}
+
+// c18PairDesc prints the partner graph, or for a long one the lists in which
+// it differs from adj.
+func c18PairDesc(adj, adj2 [][]int) string {
+	tot := len(adj2)
+	for _, l := range adj2 {
+		tot += len(l)
+	}
+	if tot <= 200 {
+		return fmt.Sprint(adj2)
+	}
+	if len(adj) != len(adj2) {
+		return fmt.Sprintf("(a graph of %d nodes)", len(adj2))
+	}
+	var b strings.Builder
+	fmt.Fprintf(&b, "(g with")
+	cnt := 0
+	for i := range adj2 {
+		if c18EqInts(adj[i], adj2[i]) {
+			continue
+		}
+		cnt++
+		if cnt <= 3 {
+			kind := "replaced by"
+			if ref.GSameMultiset(adj[i], adj2[i]) {
+				kind = "permuted to"
+			}
+			fmt.Fprintf(&b, " Out(%d)=%s %s %s;", i, c18Short(adj[i], adj2[i]), kind, c18Short(adj2[i], adj[i]))
+		}
+	}
+	fmt.Fprintf(&b, " %d lists differ as sequences)", cnt)
+	return b.String()
+}
+
+func (j *c18J) equalOne(adj2 [][]int) {
+	w := j.w
+	want := ref.GEqualDef(j.adj, adj2)
+	c18EqClasses(w, j.adj, adj2, want)
+	w.HitIf(want, "equal-true")
+	w.HitIf(j.n > 60, "equal-graph>60-nodes")
+	lay := 0
+	if j.st != nil {
+		lay = j.st.lay
+	}
+	var st2 *c18Store
+	lists2 := adj2
+	if j.small {
+		st2 = c18NewStore(adj2, lay)
+		lists2 = st2.lists
+	}
+	if lay != 0 && len(adj2) == len(j.adj) {
+		// a scratch buffer grown out of one graph's list would run over the
+		// lists stored behind it
+		over := false
+		for i := range adj2 {
+			if len(adj2[i]) == len(j.adj[i]) && !c18EqInts(adj2[i], j.adj[i]) {
+				over = over || j.st.spareOver(i, len(adj2[i])) || st2.spareOver(i, len(adj2[i]))
+			}
+		}
+		w.HitIf(over, "equal-packed-permuted-list-before-other-lists")
+	}
+	j.st2, j.adj2 = st2, adj2
+	ctr2 := &c18G{}
+	b2 := 16*int64(len(adj2)+j.m+4) + 64 + j.budget
+	mk2 := func() graph.Graph {
+		*ctr2 = c18G{budget: b2}
+		return c18Wrap(j.rep(), lists2, ctr2)
+	}
+	var got, got2 bool
+	if j.call("Equal", func() { got = graph.Equal(j.G(), mk2()) }) && got != want {
+		j.bad("equal", fmt.Sprintf("Equal(g, %s)=%v, comparing adjacency lists as multisets gives %v", c18PairDesc(j.adj, adj2), got, want))
+	}
+	if j.call("Equal", func() { got2 = graph.Equal(mk2(), j.G()) }) && got2 != want {
+		j.bad("equal", fmt.Sprintf("Equal(%s, g)=%v, comparing adjacency lists as multisets gives %v", c18PairDesc(j.adj, adj2), got2, want))
+	}
+	j.st2, j.adj2 = nil, nil
 }
 
 func c18Has(l []int, x int) bool {
@@ -1171,68 +1367,110 @@ func c18Has(l []int, x int) bool {
 	return false
 }
 
+// c18Poison overwrites the slices that were passed by value to a
+// constructing call. The call has returned: the slices belong to the caller,
+// who may reuse them (buf = append(buf[:0], ...)); the result must not depend
+// on them any more.
+func c18Poison(w *mon.W, nodes []int, edges []graph.Edge) {
+	w.HitIf(len(nodes)+len(edges) > 0, "subgraph-argument-slices-overwritten-after-call")
+	for i := range nodes {
+		nodes[i] = -1 - i
+	}
+	for i := range edges {
+		edges[i] = graph.Edge{Node: -1 - i, Edge: -7}
+	}
+}
+
+// c18SubInfo is what subVerify has learnt about a verified Subgraph.
+type c18SubInfo struct {
+	adj    [][]int           // its adjacency lists (copies)
+	old    []int             // subgraph node -> node of the graph it was made from
+	newOf  map[int]int       // the inverse
+	edgeOf map[[2]int][2]int // (node, edge) of the graph it was made from -> (node, edge) of the subgraph
+}
+
+// c18SubRemoveWant: kept nodes and surviving edges of SubgraphRemove on adj.
+func c18SubRemoveWant(adj [][]int, rmNodes []int, rmEdges [][2]int) (kept []bool, nk int, want map[[2]int]bool, shifted bool) {
+	kept = make([]bool, len(adj))
+	for i := range kept {
+		kept[i] = true
+	}
+	for _, u := range rmNodes {
+		kept[u] = false
+	}
+	rm := make(map[[2]int]bool, len(rmEdges))
+	for _, e := range rmEdges {
+		rm[e] = true
+	}
+	want = map[[2]int]bool{}
+	for u, l := range adj {
+		if !kept[u] {
+			continue
+		}
+		nk++
+		dropped := false
+		for k, v := range l {
+			if kept[v] && !rm[[2]int{u, k}] {
+				want[[2]int{u, k}] = true
+				if dropped {
+					shifted = true
+				}
+			} else {
+				dropped = true
+			}
+		}
+	}
+	return
+}
+
+func c18GraphEdges(es [][2]int) []graph.Edge {
+	out := make([]graph.Edge, len(es))
+	for i, e := range es {
+		out[i] = graph.Edge{Node: e[0], Edge: e[1]}
+	}
+	return out
+}
+
 // sub: SubgraphKeep and SubgraphRemove with NodeMap/EdgeMap.
 func (j *c18J) sub() {
 	w := j.w
 	s := j.c.Sub
 	n := j.n
+	desc := fmt.Sprintf("keep=%s/%s, rm=%s/%s; the nodes and edges slices passed to a call are overwritten with negative numbers after the result was judged", c18Short(s.KeepNodes, nil), c18ShortE(s.KeepEdges), c18Short(s.RmNodes, nil), c18ShortE(s.RmEdges))
+	w.HitIf(n > 60, "subgraph-graph>60-nodes")
+	var infoKeep, infoRm *c18SubInfo
+	var sgKeep, sgRm graph.Subgraph
 	// --- keep
 	{
 		kept := make([]bool, n)
 		for _, u := range s.KeepNodes {
 			kept[u] = true
 		}
-		want := map[[2]int]bool{}
-		edges := make([]graph.Edge, len(s.KeepEdges))
-		for i, e := range s.KeepEdges {
+		want := make(map[[2]int]bool, len(s.KeepEdges))
+		for _, e := range s.KeepEdges {
 			want[e] = true
-			edges[i] = graph.Edge{Node: e[0], Edge: e[1]}
 		}
 		asc := sort.IntsAreSorted(s.KeepNodes)
 		w.HitIf(!asc, "subgraph-keep-permuted-nodes")
 		w.HitIf(len(s.KeepNodes) == 0, "subgraph-keep-nothing")
 		var sg graph.Subgraph
+		var nodesArg []int
+		var edgesArg []graph.Edge
 		if j.call("SubgraphKeep", func() {
-			sg = graph.SubgraphKeep(j.G(), append([]int(nil), s.KeepNodes...), append([]graph.Edge(nil), edges...))
+			nodesArg, edgesArg = append([]int(nil), s.KeepNodes...), c18GraphEdges(s.KeepEdges)
+			sg = graph.SubgraphKeep(j.G(), nodesArg, edgesArg)
 		}) {
-			j.subVerify(sg, "SubgraphKeep", s.KeepNodes, kept, len(s.KeepNodes), want)
+			infoKeep = j.subVerify(sg, "SubgraphKeep", desc, j.adj, s.KeepNodes, kept, len(s.KeepNodes), want)
+			sgKeep = sg
+			c18Poison(w, nodesArg, edgesArg)
+			j.noteOnly = "subgraph-result-follows-the-argument-slices-after-the-call"
+			j.subVerify(sg, "SubgraphKeep", desc, j.adj, s.KeepNodes, kept, len(s.KeepNodes), want)
+			j.noteOnly = ""
 		}
 	}
 	// --- remove
 	{
-		kept := make([]bool, n)
-		for i := range kept {
-			kept[i] = true
-		}
-		for _, u := range s.RmNodes {
-			kept[u] = false
-		}
-		rm := map[[2]int]bool{}
-		edges := make([]graph.Edge, len(s.RmEdges))
-		for i, e := range s.RmEdges {
-			rm[e] = true
-			edges[i] = graph.Edge{Node: e[0], Edge: e[1]}
-		}
-		want := map[[2]int]bool{}
-		nk := 0
-		shifted := false
-		for u, l := range j.adj {
-			if !kept[u] {
-				continue
-			}
-			nk++
-			dropped := false
-			for k, v := range l {
-				if kept[v] && !rm[[2]int{u, k}] {
-					want[[2]int{u, k}] = true
-					if dropped {
-						shifted = true
-					}
-				} else {
-					dropped = true
-				}
-			}
-		}
+		kept, nk, want, shifted := c18SubRemoveWant(j.adj, s.RmNodes, s.RmEdges)
 		w.HitIf(shifted, "subgraph-remove-edge-index-shift")
 		{
 			cnt := map[int]int{}
@@ -1251,40 +1489,189 @@ func (j *c18J) sub() {
 				}
 				w.HitIf(above, "subgraph-remove-repeated-node-below-kept-edge-target")
 			}
+			rm := make(map[[2]int]bool, len(s.RmEdges))
+			for _, e := range s.RmEdges {
+				rm[e] = true
+			}
 			w.HitIf(len(rm) < len(s.RmEdges), "subgraph-remove-repeated-edge")
 		}
 		w.HitIf(len(s.RmNodes) > 0 && nk > 0 && !kept[0], "subgraph-remove-node-id-shift")
 		var sg graph.Subgraph
+		var nodesArg []int
+		var edgesArg []graph.Edge
 		if j.call("SubgraphRemove", func() {
-			sg = graph.SubgraphRemove(j.G(), append([]int(nil), s.RmNodes...), append([]graph.Edge(nil), edges...))
+			nodesArg, edgesArg = append([]int(nil), s.RmNodes...), c18GraphEdges(s.RmEdges)
+			sg = graph.SubgraphRemove(j.G(), nodesArg, edgesArg)
 		}) {
-			j.subVerify(sg, "SubgraphRemove", nil, kept, nk, want)
+			infoRm = j.subVerify(sg, "SubgraphRemove", desc, j.adj, nil, kept, nk, want)
+			sgRm = sg
+			c18Poison(w, nodesArg, edgesArg)
+			j.noteOnly = "subgraph-result-follows-the-argument-slices-after-the-call"
+			j.subVerify(sg, "SubgraphRemove", desc, j.adj, nil, kept, nk, want)
+			j.noteOnly = ""
+		}
+	}
+	// --- a second step on the Subgraph the first one returned
+	if ns := s.Nest; ns != nil {
+		info, sg1, first := infoKeep, sgKeep, "SubgraphKeep"
+		if ns.First == 1 {
+			info, sg1, first = infoRm, sgRm, "SubgraphRemove"
+		}
+		if info != nil {
+			j.subNested(sg1, info, first, desc)
 		}
 	}
 }
 
-// subVerify checks a Subgraph against the requested node set (in the given
-// order when strict != nil) and edge set, through NodeMap and EdgeMap.
-func (j *c18J) subVerify(sg graph.Subgraph, op string, strict []int, kept []bool, nk int, want map[[2]int]bool) {
+func c18ShortE(es [][2]int) string {
+	if len(es) <= 24 {
+		return fmt.Sprint(es)
+	}
+	return fmt.Sprintf("(%d edges) %v...", len(es), es[:8])
+}
+
+// subNested applies the case's second step to sg1, a Subgraph the library
+// returned and subVerify accepted (info describes it). The graph handed to
+// the library is now sg1: the result must be the requested subgraph of sg1,
+// NodeMap/EdgeMap must translate to sg1's identifiers and Underlying must be
+// sg1, whatever sg1 itself is a subgraph of.
+func (j *c18J) subNested(sg1 graph.Subgraph, info *c18SubInfo, first, desc string) {
+	w := j.w
+	ns := j.c.Sub.Nest
+	adj1 := info.adj
+	// translate into sg1's numbering; a name that does not survive step 1 is
+	// dropped (only possible in a hand-made case)
+	var nodes []int
+	for _, v := range ns.Nodes {
+		if x, ok := info.newOf[v]; ok {
+			nodes = append(nodes, x)
+		}
+	}
+	var edges [][2]int
+	for _, e := range ns.Edges {
+		if x, ok := info.edgeOf[e]; ok {
+			edges = append(edges, x)
+		}
+	}
+	renumbered := false
+	for i, v := range info.old {
+		if v != i {
+			renumbered = true
+		}
+	}
+	if !renumbered {
+		for e, x := range info.edgeOf {
+			if e != x {
+				renumbered = true
+				break
+			}
+		}
+	}
+	w.Hit("subgraph-of-subgraph")
+	w.HitIf(renumbered, "subgraph-of-renumbered-subgraph")
+	opName := "SubgraphKeep"
+	if ns.Op == 1 {
+		opName = "SubgraphRemove"
+	}
+	op := fmt.Sprintf("%s(s1, nodes=%s, edges=%s) with s1 = the result of %s(g, ...) (%d nodes; numbered in s1's identifiers)", opName, c18Short(nodes, nil), c18ShortE(edges), first, len(adj1))
+	var strict []int
+	var kept []bool
+	var nk int
+	var want map[[2]int]bool
+	if ns.Op == 0 {
+		kept = make([]bool, len(adj1))
+		for _, u := range nodes {
+			if kept[u] {
+				return // not in the domain: duplicate node
+			}
+			kept[u] = true
+		}
+		want = make(map[[2]int]bool, len(edges))
+		for _, e := range edges {
+			if want[e] || !kept[e[0]] || !kept[adj1[e[0]][e[1]]] {
+				return // not in the domain
+			}
+			want[e] = true
+		}
+		strict, nk = nodes, len(nodes)
+		if strict == nil {
+			strict = []int{}
+		}
+	} else {
+		kept, nk, want, _ = c18SubRemoveWant(adj1, nodes, edges)
+		w.HitIf(len(nodes) == 0 && len(edges) == 0, "subgraph-remove-nothing-from-subgraph")
+		w.HitIf(len(nodes) == 0 && len(edges) == 0 && renumbered, "subgraph-remove-nothing-from-renumbered-subgraph")
+	}
+	var sg2 graph.Subgraph
+	var nodesArg []int
+	var edgesArg []graph.Edge
+	j.g.calls = 0
+	w.Eval(opName + "(Subgraph)")
+	if !j.guard(opName+"(Subgraph)", func() {
+		nodesArg, edgesArg = append([]int(nil), nodes...), c18GraphEdges(edges)
+		if ns.Nil && len(nodesArg) == 0 {
+			nodesArg = nil
+		}
+		if ns.Nil && len(edgesArg) == 0 {
+			edgesArg = nil
+		}
+		if ns.Op == 0 {
+			sg2 = graph.SubgraphKeep(sg1, nodesArg, edgesArg)
+		} else {
+			sg2 = graph.SubgraphRemove(sg1, nodesArg, edgesArg)
+		}
+	}) {
+		return
+	}
+	j.subVerify(sg2, op, desc, adj1, strict, kept, nk, want)
+	c18Poison(w, nodesArg, edgesArg)
+	j.noteOnly = "subgraph-result-follows-the-argument-slices-after-the-call"
+	j.subVerify(sg2, op, desc, adj1, strict, kept, nk, want)
+	j.noteOnly = ""
+	// s1 is still the subgraph it was
+	problem := ""
+	j.g.calls = 0
+	if j.guard("Subgraph.Out after a nested step", func() {
+		if nn := sg1.NumNodes(); nn != len(adj1) {
+			problem = fmt.Sprintf("s1 has %d nodes now, it had %d", nn, len(adj1))
+			return
+		}
+		for i := range adj1 {
+			if out := sg1.Out(i); !ref.GSameMultiset(out, adj1[i]) {
+				problem = fmt.Sprintf("s1.Out(%d)=%s now, it was %s", i, c18Short(out, adj1[i]), c18Short(adj1[i], out))
+				return
+			}
+		}
+	}) && problem != "" {
+		j.bad("subgraph", fmt.Sprintf("%s (%s): the input graph s1 was changed by the call: %s", op, desc, problem))
+	}
+}
+
+// subVerify checks a Subgraph of the graph with lists adj (the graph that was
+// handed to the library) against the requested node set (in the given order
+// when strict != nil) and edge set, through NodeMap, EdgeMap and Underlying.
+// It returns what it has read, nil when the subgraph was not accepted.
+func (j *c18J) subVerify(sg graph.Subgraph, op, desc string, adj [][]int, strict []int, kept []bool, nk int, want map[[2]int]bool) *c18SubInfo {
 	w := j.w
 	if sg == nil {
 		j.bad("subgraph", op+" returned nil")
-		return
+		return nil
 	}
+	n := len(adj)
 	j.g.calls = 0
 	problem := ""
-	if j.guard(op+" accessors", func() {
+	info := &c18SubInfo{adj: make([][]int, nk), old: make([]int, nk), newOf: make(map[int]int, nk), edgeOf: make(map[[2]int][2]int, len(want))}
+	if !j.guard(op+" accessors", func() {
 		if nn := sg.NumNodes(); nn != nk {
 			problem = fmt.Sprintf("subgraph has %d nodes, %d requested", nn, nk)
 			return
 		}
 		nm := sg.NodeMap(func(node int) interface{} { return node })
 		w.Eval("Subgraph.NodeMap")
-		old := make([]int, nk)
-		newOf := make(map[int]int, nk)
+		old, newOf := info.old, info.newOf
 		for i := 0; i < nk; i++ {
 			v, ok := nm(i).(int)
-			if !ok || v < 0 || v >= j.n || !kept[v] {
+			if !ok || v < 0 || v >= n || !kept[v] {
 				problem = fmt.Sprintf("NodeMap: subgraph node %d maps to %v, not a requested node", i, nm(i))
 				return
 			}
@@ -1301,30 +1688,31 @@ func (j *c18J) subVerify(sg graph.Subgraph, op string, strict []int, kept []bool
 		}
 		em := sg.EdgeMap(func(node, edge int) interface{} { return [2]int{node, edge} })
 		w.Eval("Subgraph.EdgeMap")
-		seen := make(map[[2]int]bool, len(want))
+		seen := info.edgeOf
 		for i := 0; i < nk; i++ {
 			out := sg.Out(i)
 			w.Eval("Subgraph.Out")
+			info.adj[i] = append(make([]int, 0, len(out)), out...)
 			for k, t := range out {
 				p, ok := em(i, k).([2]int)
 				if !ok {
 					problem = fmt.Sprintf("EdgeMap(%d,%d) did not return the underlying map's value", i, k)
 					return
 				}
-				if p[0] != old[i] || p[1] < 0 || p[1] >= len(j.adj[old[i]]) {
-					problem = fmt.Sprintf("EdgeMap: subgraph edge (%d,%d) maps to original (node %d, edge %d) but subgraph node %d is original node %d with %d out-edges", i, k, p[0], p[1], i, old[i], len(j.adj[old[i]]))
+				if p[0] != old[i] || p[1] < 0 || p[1] >= len(adj[old[i]]) {
+					problem = fmt.Sprintf("EdgeMap: subgraph edge (%d,%d) maps to original (node %d, edge %d) but subgraph node %d is original node %d with %d out-edges", i, k, p[0], p[1], i, old[i], len(adj[old[i]]))
 					return
 				}
 				if !want[p] {
 					problem = fmt.Sprintf("subgraph edge (%d,%d) maps to original edge (%d,%d), which is not in the requested subgraph", i, k, p[0], p[1])
 					return
 				}
-				if seen[p] {
+				if _, dup := seen[p]; dup {
 					problem = fmt.Sprintf("original edge (%d,%d) appears twice in the subgraph", p[0], p[1])
 					return
 				}
-				seen[p] = true
-				to := j.adj[p[0]][p[1]]
+				seen[p] = [2]int{i, k}
+				to := adj[p[0]][p[1]]
 				if nt, ok := newOf[to]; !ok || nt != t {
 					problem = fmt.Sprintf("subgraph edge (%d,%d) points to subgraph node %d, but its original (%d,%d) points to original node %d = subgraph node %d", i, k, t, p[0], p[1], to, newOf[to])
 					return
@@ -1333,15 +1721,241 @@ func (j *c18J) subVerify(sg graph.Subgraph, op string, strict []int, kept []bool
 		}
 		if len(seen) != len(want) {
 			for e := range want {
-				if !seen[e] {
+				if _, ok := seen[e]; !ok {
 					problem = fmt.Sprintf("requested original edge (%d,%d) is missing from the subgraph (%d of %d edges present)", e[0], e[1], len(seen), len(want))
-					break
+					return
 				}
 			}
 		}
-	}) && problem != "" {
-		j.bad("subgraph", fmt.Sprintf("%s(keep=%v/%v, rm=%v/%v): %s", op, j.c.Sub.KeepNodes, j.c.Sub.KeepEdges, j.c.Sub.RmNodes, j.c.Sub.RmEdges, problem))
+		// Underlying: the graph this is a subgraph of, i.e. the graph the
+		// identifiers handed to the NodeMap/EdgeMap callbacks belong to. It is
+		// compared by content (same nodes, same lists in the same order: edge
+		// indexes count), not by identity.
+		ug := sg.Underlying()
+		w.Eval("Subgraph.Underlying")
+		if ug == nil {
+			problem = "Underlying() returned nil"
+			return
+		}
+		if nn := ug.NumNodes(); nn != n {
+			problem = fmt.Sprintf("Underlying() has %d nodes; the graph passed in, which NodeMap and EdgeMap must translate to, has %d", nn, n)
+			return
+		}
+		for u := 0; u < n; u++ {
+			if out := ug.Out(u); !c18EqInts(out, adj[u]) {
+				problem = fmt.Sprintf("Underlying().Out(%d)=%s; in the graph passed in, which NodeMap and EdgeMap must translate to, Out(%d)=%s", u, c18Short(out, adj[u]), u, c18Short(adj[u], out))
+				return
+			}
+		}
+	}) {
+		return nil
 	}
+	if problem != "" {
+		j.bad("subgraph", fmt.Sprintf("%s (%s): %s", op, desc, problem))
+		return nil
+	}
+	return info
+}
+
+// feed hands results of the library back to it as input graphs: the
+// simplified graph, the SCC graph, a BiGraph or a Subgraph is just another
+// Graph. Its lists are read once (whether they are right for g is judged in
+// the part that made it); every call on it is then judged against them.
+func (j *c18J) feed() {
+	w := j.w
+	rng := mon.NewRand(j.c.Feed, 0x18fe)
+	saved := j.probe
+	if j.c.Rep == 1 {
+		// graph.IntGraph cannot count calls; results that keep calling into g
+		// are built over the counting representation
+		j.probe = true
+	}
+	defer func() { j.probe = saved }()
+	var lg graph.Graph
+	name := ""
+	j.g.calls = 0
+	kind := rng.Intn(4)
+	w.Eval("result-as-input")
+	if !j.guard("constructing a result to pass back", func() {
+		switch kind {
+		case 0:
+			name = "SimplifyMulti(g)"
+			lg = graphalg.SimplifyMulti(j.G())
+		case 1:
+			name = "SCC(g, SCCEdges)"
+			lg = graphalg.SCC(j.G(), graphalg.SCCEdges)
+		case 2:
+			name = "MakeBiGraph(g)"
+			lg = graph.MakeBiGraph(j.G())
+		default:
+			name = "SubgraphKeep(g, all nodes in descending order, all edges)"
+			nodes := make([]int, j.n)
+			var edges []graph.Edge
+			for u := range nodes {
+				nodes[u] = j.n - 1 - u
+				for k := range j.adj[u] {
+					edges = append(edges, graph.Edge{Node: u, Edge: k})
+				}
+			}
+			lg = graph.SubgraphKeep(j.G(), nodes, edges)
+		}
+	}) || lg == nil {
+		return
+	}
+	var adjL [][]int
+	valid := true
+	j.g.calls = 0
+	if !j.guard("reading "+name, func() {
+		nl := lg.NumNodes()
+		if nl < 0 || nl > j.n {
+			valid = false
+			return
+		}
+		adjL = make([][]int, nl)
+		for u := range adjL {
+			out := lg.Out(u)
+			adjL[u] = append(make([]int, 0, len(out)), out...)
+			for _, v := range out {
+				if v < 0 || v >= nl {
+					valid = false
+				}
+			}
+		}
+	}) || !valid {
+		return // judged where the result was made
+	}
+	nl := len(adjL)
+	w.Hit("library-result-as-input-graph")
+	w.Hit("library-result-as-input-graph-" + []string{"simplified", "scc", "bigraph", "subgraph"}[kind])
+	bad := func(kind, msg string) {
+		j.bad(kind, fmt.Sprintf("with r = %s, a graph of %d nodes with lists %s: %s", name, nl, c18ShortAdj(adjL), msg))
+	}
+	if nl > 0 {
+		root := rng.Intn(nl)
+		pre, post, _ := ref.GDFS(adjL, root)
+		var got []int
+		j.g.calls = 0
+		w.Eval("PreOrder(result)")
+		if j.guard("PreOrder(r)", func() { got = graphalg.PreOrder(lg, root) }) && !c18EqInts(got, pre) {
+			bad("preorder", fmt.Sprintf("PreOrder(r, %d)=%s, the depth-first pre-order is %s", root, c18Short(got, pre), c18Short(pre, got)))
+		}
+		j.g.calls = 0
+		w.Eval("PostOrder(result)")
+		if j.guard("PostOrder(r)", func() { got = graphalg.PostOrder(lg, root) }) && !c18EqInts(got, post) {
+			bad("postorder", fmt.Sprintf("PostOrder(r, %d)=%s, the depth-first post-order is %s", root, c18Short(got, post), c18Short(post, got)))
+		}
+	}
+	// Equal against plain copies
+	shuf := c18CloneAdj(adjL)
+	for _, l := range shuf {
+		rng.ShuffleI(l)
+	}
+	var eq bool
+	j.g.calls = 0
+	w.Eval("Equal(result)")
+	if j.guard("Equal(r, copy)", func() { eq = graph.Equal(lg, graph.IntGraph(shuf)) }) && !eq {
+		bad("equal", fmt.Sprintf("Equal(r, %v)=false for a copy with reshuffled lists", c18ShortAdj(shuf)))
+	}
+	j.g.calls = 0
+	if j.guard("Equal(r, r)", func() { eq = graph.Equal(lg, lg) }) && !eq {
+		bad("equal", "Equal(r, r)=false")
+	}
+	if nl > 0 {
+		mut := c18CloneAdj(shuf)
+		u := rng.Intn(nl)
+		if len(mut[u]) > 0 && nl > 1 && rng.Bool() {
+			k := rng.Intn(len(mut[u]))
+			mut[u][k] = (mut[u][k] + 1 + rng.Intn(nl-1)) % nl
+		} else {
+			mut[u] = append(mut[u], rng.Intn(nl))
+		}
+		j.g.calls = 0
+		w.Eval("Equal(result)")
+		if j.guard("Equal(copy, r)", func() { eq = graph.Equal(graph.IntGraph(mut), lg) }) && eq {
+			bad("equal", fmt.Sprintf("Equal(%v, r)=true for a copy with one edge changed or added at node %d", c18ShortAdj(mut), u))
+		}
+	}
+	// MakeBiGraph
+	var b graph.BiGraph
+	j.g.calls = 0
+	w.Eval("MakeBiGraph(result)")
+	if j.guard("MakeBiGraph(r)", func() { b = graph.MakeBiGraph(lg) }) && b != nil {
+		tr := ref.GTranspose(adjL)
+		problem := ""
+		j.g.calls = 0
+		if j.guard("MakeBiGraph(r) accessors", func() {
+			if nn := b.NumNodes(); nn != nl {
+				problem = fmt.Sprintf("NumNodes()=%d", nn)
+				return
+			}
+			for i := 0; i < nl; i++ {
+				if in := b.In(i); !ref.GSameMultiset(in, tr[i]) {
+					problem = fmt.Sprintf("In(%d)=%v, the predecessors of %d in r (with multiplicity) are %v", i, c18Short(in, tr[i]), i, c18Short(tr[i], in))
+					return
+				}
+			}
+		}) && problem != "" {
+			bad("bigraph", "MakeBiGraph(r): "+problem)
+		}
+	}
+	// SCC: number of components
+	{
+		var lab []int
+		if nl <= 64 {
+			lab = ref.GSCCMutual(ref.GClosure(adjL))
+		} else {
+			lab, _ = ref.GKosaraju(adjL)
+		}
+		nc := map[int]bool{}
+		for _, c := range lab {
+			nc[c] = true
+		}
+		var s *graphalg.SCCGraph
+		j.g.calls = 0
+		w.Eval("SCC(result)")
+		if j.guard("SCC(r)", func() { s = graphalg.SCC(lg, graphalg.SCCSubnodeComponent) }) && s != nil {
+			problem := ""
+			j.g.calls = 0
+			if j.guard("SCC(r) accessors", func() {
+				if got := s.NumNodes(); got != len(nc) {
+					problem = fmt.Sprintf("SCC(r) has %d components, r has %d classes of mutually reachable nodes", got, len(nc))
+					return
+				}
+				comp := make([]int, nl)
+				for u := range comp {
+					comp[u] = s.SubnodeComponent(u)
+				}
+				if !ref.GSamePartition(comp, lab) {
+					problem = fmt.Sprintf("SCC(r).SubnodeComponent gives %s, mutual reachability gives the partition %s", c18Short(comp, lab), c18Short(lab, comp))
+				}
+			}) && problem != "" {
+				bad("scc-partition", problem)
+			}
+		}
+	}
+	// SubgraphRemove(r, nothing) is r again, as a subgraph of r
+	{
+		kept, nk, want, _ := c18SubRemoveWant(adjL, nil, nil)
+		var sg graph.Subgraph
+		j.g.calls = 0
+		w.Eval("SubgraphRemove(result)")
+		if j.guard("SubgraphRemove(r, nil, nil)", func() { sg = graph.SubgraphRemove(lg, nil, nil) }) {
+			w.HitIf(kind == 3, "subgraph-remove-nothing-from-subgraph")
+			w.HitIf(kind == 3 && nl > 1, "subgraph-remove-nothing-from-renumbered-subgraph")
+			j.subVerify(sg, "SubgraphRemove(r, nil, nil) with r = "+name, "r has "+strconv.Itoa(nl)+" nodes, lists "+c18ShortAdj(adjL), adjL, nil, kept, nk, want)
+		}
+	}
+}
+
+func c18ShortAdj(adj [][]int) string {
+	tot := 0
+	for k, l := range adj {
+		tot += 1 + len(l)
+		if tot > 120 {
+			return fmt.Sprintf("%v... (%d nodes)", adj[:k], len(adj))
+		}
+	}
+	return fmt.Sprint(adj)
 }
 
 // ---- Dot ----------------------------------------------------------------
@@ -2436,7 +3050,82 @@ func c18RandSub(rng *mon.Rand, adj [][]int) *c18Sub {
 		}
 	}
 	c18ShuffleEdges(rng, s.RmEdges)
+	if rng.Intn(3) == 0 {
+		s.Nest = c18RandNest(rng, adj, s)
+	}
 	return s
+}
+
+// c18RandNest draws a second subgraph step for the result of one of the two
+// first steps of s, named in the identifiers of adj.
+func c18RandNest(rng *mon.Rand, adj [][]int, s *c18Sub) *c18Nest {
+	ns := &c18Nest{First: rng.Intn(2), Nodes: []int{}, Edges: [][2]int{}, Nil: rng.Bool()}
+	// what survives step 1
+	var nodes []int
+	var edges [][2]int
+	if ns.First == 0 {
+		nodes = append(nodes, s.KeepNodes...)
+		edges = append(edges, s.KeepEdges...)
+	} else {
+		kept, _, want, _ := c18SubRemoveWant(adj, s.RmNodes, s.RmEdges)
+		for u, l := range adj {
+			if kept[u] {
+				nodes = append(nodes, u)
+			}
+			for k := range l {
+				if want[[2]int{u, k}] {
+					edges = append(edges, [2]int{u, k})
+				}
+			}
+		}
+	}
+	switch mode := rng.Intn(5); mode {
+	case 0, 1: // remove nothing: the result is the first subgraph again, as a subgraph of it
+		ns.Op = 1
+	case 2: // remove a part
+		ns.Op = 1
+		p, q := rng.Pick(0, 0.1, 0.3, 0.6), rng.Pick(0, 0.2, 0.5)
+		for _, u := range nodes {
+			if rng.Float64() < p {
+				ns.Nodes = append(ns.Nodes, u)
+			}
+		}
+		for _, e := range edges {
+			if rng.Float64() < q {
+				ns.Edges = append(ns.Edges, e)
+			}
+		}
+		if len(ns.Nodes) > 0 && rng.Intn(3) == 0 {
+			ns.Nodes = append(ns.Nodes, ns.Nodes[rng.Intn(len(ns.Nodes))])
+		}
+		rng.ShuffleI(ns.Nodes)
+		c18ShuffleEdges(rng, ns.Edges)
+	default: // keep a part (3) or everything (4)
+		ns.Op = 0
+		p, q := 1.0, 1.0
+		if mode == 3 {
+			p, q = rng.Pick(0.3, 0.6, 0.9), rng.Pick(0.5, 1)
+		}
+		in := map[int]bool{}
+		for _, u := range nodes {
+			if rng.Float64() < p {
+				ns.Nodes = append(ns.Nodes, u)
+				in[u] = true
+			}
+		}
+		if rng.Intn(10) < 7 {
+			rng.ShuffleI(ns.Nodes)
+		}
+		for _, e := range edges {
+			if in[e[0]] && in[adj[e[0]][e[1]]] && rng.Float64() < q {
+				ns.Edges = append(ns.Edges, e)
+			}
+		}
+		if rng.Bool() {
+			c18ShuffleEdges(rng, ns.Edges)
+		}
+	}
+	return ns
 }
 
 // c18EqPartners derives graphs to compare with adj: a reshuffled copy, a
@@ -2512,7 +3201,346 @@ func c18EqPartners(rng *mon.Rand, adj [][]int) [][][]int {
 	if rng.Intn(4) == 0 {
 		out = append(out, c18CloneAdj(adj))
 	}
+	if rng.Bool() {
+		if hard := c18EqHard(rng, adj, rng.Intn(5)); hard != nil {
+			out = append(out, hard)
+		}
+	}
 	return out
+}
+
+// c18EqHard derives an unequal partner that agrees with adj in everything a
+// cheap summary of a list sees: two compensating edits in one list (same
+// length and sum), two entries xor-ed with the same bit (same xor), entries
+// exchanged between the lists of two nodes or two whole lists exchanged (the
+// same targets overall), one target moved by a multiple of 64 (same residues).
+// kind is where the search starts; nil when the graph admits none.
+func c18EqHard(rng *mon.Rand, adj [][]int, kind int) [][]int {
+	n := len(adj)
+	var two, nonEmpty []int
+	for u, l := range adj {
+		if len(l) >= 2 {
+			two = append(two, u)
+		}
+		if len(l) >= 1 {
+			nonEmpty = append(nonEmpty, u)
+		}
+	}
+	for try := 0; try < 5; try++ {
+		mut := c18CloneAdj(adj)
+		done := false
+		switch (kind + try) % 5 {
+		case 0: // l[a]+d, l[b]-d
+			for t := 0; t < 8 && !done && len(two) > 0; t++ {
+				l := mut[two[rng.Intn(len(two))]]
+				a := rng.Intn(len(l))
+				b := (a + 1 + rng.Intn(len(l)-1)) % len(l)
+				d := 1 + rng.Intn(3)
+				if rng.Intn(4) == 0 {
+					d = 1 + rng.Intn(n)
+				}
+				if l[a]+d < n && l[b]-d >= 0 && l[a]+d != l[b] {
+					l[a], l[b] = l[a]+d, l[b]-d
+					done = true
+				}
+			}
+		case 1: // l[a]^d, l[b]^d
+			for t := 0; t < 8 && !done && len(two) > 0; t++ {
+				l := mut[two[rng.Intn(len(two))]]
+				a := rng.Intn(len(l))
+				b := (a + 1 + rng.Intn(len(l)-1)) % len(l)
+				d := 1 << uint(rng.Intn(17))
+				if d >= n {
+					d = 1 << uint(rng.Intn(3))
+				}
+				if l[a]^d < n && l[b]^d < n && l[a]^d != l[b] {
+					l[a], l[b] = l[a]^d, l[b]^d
+					done = true
+				}
+			}
+		case 2: // exchange one entry between two nodes
+			for t := 0; t < 8 && !done && len(nonEmpty) > 1; t++ {
+				i := rng.Intn(len(nonEmpty))
+				u, v := nonEmpty[i], nonEmpty[(i+1+rng.Intn(len(nonEmpty)-1))%len(nonEmpty)]
+				a, b := rng.Intn(len(mut[u])), rng.Intn(len(mut[v]))
+				if mut[u][a] != mut[v][b] {
+					mut[u][a], mut[v][b] = mut[v][b], mut[u][a]
+					done = true
+				}
+			}
+		case 3: // exchange the lists of two nodes
+			for t := 0; t < 8 && !done && len(nonEmpty) > 1; t++ {
+				i := rng.Intn(len(nonEmpty))
+				u, v := nonEmpty[i], nonEmpty[(i+1+rng.Intn(len(nonEmpty)-1))%len(nonEmpty)]
+				if len(mut[u]) == len(mut[v]) && !ref.GSameMultiset(mut[u], mut[v]) {
+					mut[u], mut[v] = mut[v], mut[u]
+					done = true
+				}
+			}
+		default: // one target moved by a multiple of 64
+			for t := 0; t < 8 && !done && len(nonEmpty) > 0 && n > 64; t++ {
+				l := mut[nonEmpty[rng.Intn(len(nonEmpty))]]
+				a := rng.Intn(len(l))
+				d := rng.PickI(64, -64, 64, -64, 128, -128, 1024, -1024, 65536, -65536, 64*(1+rng.Intn(n/64)), -64*(1+rng.Intn(n/64)))
+				if l[a]+d >= 0 && l[a]+d < n {
+					l[a] += d
+					done = true
+				}
+			}
+		}
+		if done {
+			if rng.Bool() {
+				for _, l := range mut {
+					rng.ShuffleI(l)
+				}
+			}
+			return mut
+		}
+	}
+	return nil
+}
+
+// c18Colliding are pairs of lists of the same length that differ as
+// multisets but agree in sum (all), in xor ({1,2}/{0,3}: also the sum), in
+// sum and sum of squares (the three-element pairs), or in the set of values
+// while the multiplicities differ.
+var c18Colliding = [][2][]int{
+	{{0, 2}, {1, 1}}, {{0, 3}, {1, 2}}, {{1, 2}, {0, 3}}, {{0, 4, 5}, {1, 2, 6}}, {{1, 6, 8}, {2, 4, 9}},
+	{{0, 0, 1}, {0, 1, 1}}, {{0, 1, 1, 1}, {0, 0, 0, 1}}, {{0, 5, 6, 11}, {1, 3, 8, 10}}, {{0, 7}, {3, 4}}, {{2, 2, 2}, {1, 2, 3}},
+	{{0, 1, 2, 3}, {0, 0, 3, 3}}, {{5, 6}, {4, 7}},
+}
+
+// c18CraftedPair builds a graph and an unequal partner that differ in the
+// list of one node only, there by a colliding pair of sub-lists or by
+// targets moved by multiples of 64.
+func c18CraftedPair(rng *mon.Rand) (adj, adj2 [][]int) {
+	var n int
+	switch rng.Intn(8) {
+	case 0, 1:
+		n = rng.Range(3, 16)
+	case 2, 6:
+		n = rng.Range(17, 63)
+	case 3, 4:
+		n = rng.PickI(64, 65, 66, 67, 68, 70, 96, 127, 128, 129, 130, 131, 160, 192, 193, 200, 255, 256, 257, 300)
+	case 5:
+		n = rng.Range(61, 999)
+	default:
+		n = rng.PickI(1025, 1026, 1030, 1089, 1100, 1500, 2048, 2049, 2100)
+	}
+	adj = make([][]int, n)
+	lim := n
+	if rng.Intn(3) == 0 && n > 64 {
+		lim = 64 // base targets below 64: only the crafted entries are large
+	}
+	for u := range adj {
+		adj[u] = []int{}
+		for k := rng.PickI(0, 0, 1, 1, 2, 3); k > 0; k-- {
+			adj[u] = append(adj[u], rng.Intn(lim))
+		}
+	}
+	adj2 = c18CloneAdj(adj)
+	u := rng.Intn(n)
+	if rng.Intn(3) == 0 {
+		adj[u], adj2[u] = []int{}, []int{}
+	}
+	var x, y []int
+	if n > 64 && rng.Intn(5) < 3 {
+		// the same residues mod 64 (and mod 128, ...): k distinct small targets,
+		// some of them moved up by a multiple of 64 in the partner
+		k := rng.Range(1, 4)
+		step := rng.PickI(64, 64, 128, 1024, 64*(1+rng.Intn(n/64)))
+		for len(x) < k {
+			t := rng.Intn(64)
+			if !c18Has(x, t) {
+				x = append(x, t)
+			}
+		}
+		moved := false
+		for i, t := range x {
+			y = append(y, t)
+			if (rng.Bool() || (!moved && i == k-1)) && t+step < n {
+				y[i] = t + step
+				moved = true
+			}
+		}
+		if !moved {
+			x[0] = rng.Intn(n - 64)
+			y[0] = x[0] + 64
+		}
+		if rng.Bool() {
+			x, y = y, x
+		}
+	} else {
+		pr := c18Colliding[rng.Intn(len(c18Colliding))]
+		if n <= 11 {
+			for pr[0][len(pr[0])-1] >= n || pr[1][len(pr[1])-1] >= n {
+				pr = c18Colliding[rng.Intn(len(c18Colliding))]
+			}
+		}
+		off := 0
+		if n > 12 {
+			off = rng.Intn(n - 11)
+		}
+		for i := range pr[0] {
+			x = append(x, pr[0][i]+off)
+			y = append(y, pr[1][i]+off)
+		}
+	}
+	adj[u] = append(adj[u], x...)
+	adj2[u] = append(adj2[u], y...)
+	if rng.Intn(4) != 0 {
+		rng.ShuffleI(adj[u])
+		rng.ShuffleI(adj2[u])
+	}
+	return adj, adj2
+}
+
+// c18RandMid draws a sparse multigraph of 61..999 nodes: node ids cross the
+// 64-, 128-, 256- and 512-boundaries of anything that packs ids into words.
+func c18RandMid(rng *mon.Rand) [][]int {
+	var n int
+	switch rng.Intn(4) {
+	case 0:
+		n = rng.PickI(61, 63, 64, 65, 66, 70, 100, 127, 128, 129, 130, 191, 192, 193, 255, 256, 257, 511, 512, 513, 640, 998, 999)
+	case 1:
+		n = rng.Range(61, 140)
+	default:
+		n = rng.Range(61, 999)
+	}
+	adj := make([][]int, n)
+	switch rng.Intn(4) {
+	case 0: // sparse random
+		for u := range adj {
+			for k := rng.PickI(0, 1, 1, 1, 2, 3, 4); k > 0; k-- {
+				adj[u] = append(adj[u], rng.Intn(n))
+			}
+		}
+	case 1: // clusters (cycles) with repeated cross edges
+		p := rng.Perm(n)
+		var cl [][]int
+		for i := 0; i < n; {
+			sz := 1 + rng.Intn(6)
+			if i+sz > n {
+				sz = n - i
+			}
+			c := p[i : i+sz]
+			cl = append(cl, c)
+			if sz > 1 {
+				for k := range c {
+					adj[c[k]] = append(adj[c[k]], c[(k+1)%sz])
+				}
+			}
+			i += sz
+		}
+		back := rng.Intn(4) == 0
+		for k := rng.Intn(2*len(cl) + 1); k > 0; k-- {
+			a, b := rng.Intn(len(cl)), rng.Intn(len(cl))
+			if a == b || (a > b && !back) {
+				continue
+			}
+			for r := 1 + rng.Intn(3); r > 0; r-- {
+				u := cl[a][rng.Intn(len(cl[a]))]
+				adj[u] = append(adj[u], cl[b][rng.Intn(len(cl[b]))])
+			}
+		}
+	case 2: // DAG along a random order plus a few back edges
+		pos := rng.Perm(n)
+		for u := range adj {
+			for k := rng.Intn(5); k > 0; k-- {
+				if v := rng.Intn(n); pos[v] > pos[u] {
+					adj[u] = append(adj[u], v)
+				}
+			}
+		}
+		for k := rng.Intn(4); k > 0; k-- {
+			u := rng.Intn(n)
+			adj[u] = append(adj[u], rng.Intn(n))
+		}
+	default: // functional graph, some edges doubled, a few hubs with many distinct targets
+		for u := range adj {
+			v := rng.Intn(n)
+			adj[u] = append(adj[u], v)
+			if rng.Intn(5) == 0 {
+				adj[u] = append(adj[u], v, rng.Intn(n))
+			}
+		}
+		for k := 1 + rng.Intn(3); k > 0; k-- {
+			u := rng.Intn(n)
+			for _, v := range rng.Perm(n)[:rng.Range(20, 60)] {
+				adj[u] = append(adj[u], v)
+			}
+		}
+	}
+	if rng.Intn(3) == 0 {
+		for k := 1 + rng.Intn(3); k > 0; k-- {
+			u := rng.Intn(n)
+			adj[u] = append(adj[u], u)
+		}
+	}
+	for u, l := range adj {
+		if l == nil {
+			adj[u] = []int{}
+		}
+		rng.ShuffleI(adj[u])
+	}
+	return adj
+}
+
+// c18LargeDeltas draws partners for Equal on a large structured graph: one
+// target moved by +-64, +-128, +-1024, +-65536 or with one bit flipped, two
+// compensating edits in one list, and a reshuffled (equal) copy.
+func c18LargeDeltas(rng *mon.Rand, adj [][]int) []c18EqDelta {
+	n := len(adj)
+	var ds []c18EqDelta
+	pickNode := func(minLen int) int {
+		for t := 0; t < 64; t++ {
+			if u := rng.Intn(n); len(adj[u]) >= minLen {
+				return u
+			}
+		}
+		for u := range adj {
+			if len(adj[u]) >= minLen {
+				return u
+			}
+		}
+		return -1
+	}
+	steps := []int{64, -64, 128, -128, 1024, -1024, 65536, -65536}
+	for k := 0; k < 2; k++ {
+		u := pickNode(1)
+		if u < 0 {
+			break
+		}
+		a := rng.Intn(len(adj[u]))
+		t := adj[u][a]
+		var cand []int
+		for _, d := range steps {
+			if t+d >= 0 && t+d < n {
+				cand = append(cand, t+d)
+			}
+		}
+		for _, b := range []uint{6, 7, 10, 16} {
+			if t^(1<<b) < n {
+				cand = append(cand, t^(1<<b))
+			}
+		}
+		if len(cand) > 0 {
+			ds = append(ds, c18EqDelta{Set: [][3]int{{u, a, cand[rng.Intn(len(cand))]}}, Shuf: uint64(rng.Intn(2)) * (1 + rng.Uint64()%1000)})
+		}
+	}
+	if u := pickNode(2); u >= 0 {
+		l := adj[u]
+		a := rng.Intn(len(l))
+		b := (a + 1 + rng.Intn(len(l)-1)) % len(l)
+		for _, d := range []int{64, 1, 65536, 1024, 2, 3} {
+			if l[a]+d < n && l[b]-d >= 0 && l[a]+d != l[b] {
+				ds = append(ds, c18EqDelta{Set: [][3]int{{u, a, l[a] + d}, {u, b, l[b] - d}}})
+				break
+			}
+		}
+	}
+	ds = append(ds, c18EqDelta{Shuf: 1 + rng.Uint64()%1000})
+	return ds
 }
 
 // c18RandWeights draws edge weights: small dyadic numbers (every sum is
@@ -2593,6 +3621,9 @@ func c18FillExtras(rng *mon.Rand, c *c18Case) {
 	// how the library sees the graph: Go type and storage of the lists
 	c.Rep = rng.PickI(0, 0, 0, 2, 2, 1)
 	c.Lay = rng.PickI(0, 0, 1, 2, 2, 3)
+	if c.Parts == c18pAll && rng.Intn(4) == 0 {
+		c.Feed = 1 + rng.Uint64()>>1
+	}
 }
 
 // c18RandGraph draws a multigraph of at most 60 nodes.
@@ -2829,7 +3860,7 @@ func c18GenMarks(rng *mon.Rand, idx int) [][2]int {
 }
 
 func c18Run(r *mon.Run) {
-	r.Rule("graphs: every digraph on <=4 nodes (adjacency matrix, self-loops included) and every multigraph on <=3 nodes with out-degree <=3 in every adjacency order, each with every root and all oracles; digraphs on 5 nodes (quick: fixed 2^17 subsample, thorough: all 2^25) with orders/Euler/SCC/SimplifyMulti/MakeBiGraph; all ordered pairs of multigraphs on <=2 nodes for Equal; seeded random multigraphs <=60 nodes; structured graphs of 1000..100000 nodes; one Dot.Print call on a seeded random multigraph with standard output redirected; NodeMarks histories against a set model; DotString on all strings of <=3 bytes over a 14-byte hostile alphabet plus seeded hostile strings. Non-trivial: a case hitting any class; distinct by hash of the graph, roots and selections (or of the history/string).")
+	r.Rule("graphs: every digraph on <=4 nodes (adjacency matrix, self-loops included) and every multigraph on <=3 nodes with out-degree <=3 in every adjacency order, each with every root and all oracles; digraphs on 5 nodes (quick: fixed 2^17 subsample, thorough: all 2^25) with orders/Euler/SCC/SimplifyMulti/MakeBiGraph; all ordered pairs of multigraphs on <=2 nodes for Equal; seeded random multigraphs <=60 nodes; seeded random multigraphs of 61..999 nodes; structured graphs of 1000..100000 nodes (Equal on all of them, Subgraph* and Dot on the smaller ones); Equal on all ordered pairs of 3-node multigraphs differing in one list and on crafted pairs whose lists agree in length, sum, xor, sum of squares or residues mod 64; subgraphs of subgraphs and other library results handed back as input graphs; argument slices of SubgraphKeep/SubgraphRemove overwritten after the call; one Dot.Print call on a seeded random multigraph with standard output redirected; NodeMarks histories against a set model; DotString on all strings of <=3 bytes over a 14-byte hostile alphabet plus seeded hostile strings. Non-trivial: a case hitting any class; distinct by hash of the graph, roots and selections (or of the history/string).")
 	r.Assume("reference: iterative definitional DFS, BFS reachability, mutual-reachability SCC (<=64 nodes) and iterative Kosaraju (large), cross-checked at start-up; Dot text is read back by a small tokenizer/parser with backslash unescaping",
 		"Dot node ids are assumed to be written n<i>; attribute and edge order in the text is free",
 		"in-domain inputs only: node ids >= 0 for Mark/Unmark, SubgraphKeep edges between kept nodes without duplicates (SubgraphRemove lists may repeat entries: removal is by set)",
@@ -2856,7 +3887,16 @@ func c18Run(r *mon.Run) {
 		"equal-same-value-twice", "equal-packed-permuted-list-before-other-lists",
 		"weighted-parallel-infinite", "weighted-parallel-both-infinities",
 		"weighted-parallel-sum-overflows", "weighted-parallel-order-dependent-overflow",
-		"dot-fprint-failing-writer", "dot-print-stdout")
+		"dot-fprint-failing-writer", "dot-print-stdout",
+		"equal-false-lists-of-same-length-and-sum", "equal-false-lists-of-same-length-and-xor",
+		"equal-false-lists-of-same-sum-and-sum-of-squares", "equal-false-lists-with-same-residues-mod-64",
+		"equal-false-one-target-moved-by-multiple-of-64", "equal-false-same-targets-overall-different-per-node",
+		"equal-target-id>=64", "equal-target-id>=65536", "equal-graph>60-nodes", "subgraph-graph>60-nodes",
+		"midsize-graph-61..999-nodes", "large-graph-equal", "large-graph-subgraph", "large-graph-dot",
+		"subgraph-argument-slices-overwritten-after-call", "subgraph-of-subgraph", "subgraph-of-renumbered-subgraph",
+		"subgraph-remove-nothing-from-subgraph", "subgraph-remove-nothing-from-renumbered-subgraph",
+		"library-result-as-input-graph", "library-result-as-input-graph-simplified", "library-result-as-input-graph-scc",
+		"library-result-as-input-graph-bigraph", "library-result-as-input-graph-subgraph")
 	if err := ref.GSelfTest(); err != nil {
 		r.Inconclusive("reference self-test failed: " + err.Error())
 		return
@@ -2960,6 +4000,69 @@ func c18Run(r *mon.Run) {
 		c18Judge(w, c)
 	})
 
+	// H2: Equal on all ordered pairs of graphs on 3 nodes that differ in one
+	// node's list only (any list of length <= 3 over {0,1,2})
+	var lists3 [][]int
+	for k := 0; k < 1+3+9+27; k++ {
+		lists3 = append(lists3, c18ListByIndex(3, k))
+	}
+	fixed3 := [][]int{{2, 0}, {1}, {0, 1, 2}}
+	r.Exhaustive(fmt.Sprintf("Equal on all %d ordered pairs of multigraphs on 3 nodes in which one node (each of the three in turn) has any list of length <=3 and the other two nodes have fixed lists, in the three representations and four layouts", 3*len(lists3)*len(lists3)))
+	r.Parallel("equal-pairs-3-nodes", len(lists3)*3*12, func(w *mon.W, i int) {
+		li, pos, k := i%len(lists3), (i/len(lists3))%3, i/(3*len(lists3))
+		mk := func(l []int) [][]int {
+			g := c18CloneAdj(fixed3)
+			g[pos] = append([]int{}, l...)
+			return g
+		}
+		eq := make([][][]int, len(lists3))
+		for q, l := range lists3 {
+			eq[q] = mk(l)
+		}
+		c := &c18Case{Kind: "g", Adj: mk(lists3[li]), Parts: c18pEqual, Eq: eq, Rep: k % 3, Lay: k / 3}
+		c18Judge(w, c)
+	})
+
+	// H3: crafted unequal pairs: one node's lists differ as multisets but agree
+	// in length and sum / xor / sum of squares / residues mod 64
+	r.Parallel("equal-crafted-pairs", r.Pick(2500, 25000), func(w *mon.W, i int) {
+		rng := w.Rng
+		adj, adj2 := c18CraftedPair(rng)
+		shuf := c18CloneAdj(adj)
+		for _, l := range shuf {
+			rng.ShuffleI(l)
+		}
+		c := &c18Case{Kind: "g", Adj: adj, Parts: c18pEqual, Eq: [][][]int{adj2, shuf}, Rep: rng.PickI(0, 0, 2, 1), Lay: rng.PickI(0, 0, 1, 2, 3)}
+		if hard := c18EqHard(rng, adj, rng.Intn(5)); hard != nil && rng.Bool() {
+			c.Eq = append(c.Eq, hard)
+		}
+		c18Judge(w, c)
+	})
+
+	// D2: random multigraphs of 61..999 nodes: every oracle, one or two roots
+	r.Parallel("random-midsize-graphs", r.Pick(1200, 12000), func(w *mon.W, i int) {
+		rng := w.Rng
+		adj := c18RandMid(rng)
+		n := len(adj)
+		c := &c18Case{Kind: "g", Adj: adj, Parts: c18pAll}
+		if i%3 != 0 {
+			c.Parts &^= c18pDot
+		}
+		c.Roots = []int{rng.Intn(n)}
+		if rng.Intn(3) == 0 {
+			c.Roots = append(c.Roots, rng.Intn(n))
+		}
+		c18FillExtras(rng, c)
+		if c.Sub != nil && c.Sub.Nest == nil && i%2 == 0 {
+			c.Sub.Nest = c18RandNest(rng, adj, c.Sub)
+		}
+		if i%4 == 1 {
+			c.Feed = 1 + rng.Uint64()>>1
+		}
+		w.Hit("midsize-graph-61..999-nodes")
+		c18Judge(w, c)
+	})
+
 	// D: random multigraphs
 	r.Parallel("random-multigraphs", r.Pick(20000, 200000), func(w *mon.W, i int) {
 		rng := w.Rng
@@ -2995,10 +4098,28 @@ func c18Run(r *mon.Run) {
 	r.Parallel("structured-large", len(lcs)*reps, func(w *mon.W, i int) {
 		l := lcs[i%len(lcs)]
 		param := uint64(i/len(lcs))*1000003 + w.Rng.Uint64()%1000
-		_, root := c18Shape(l.shape, l.n, param)
+		ladj, root := c18Shape(l.shape, l.n, param)
 		c := &c18Case{Kind: "large", Shape: l.shape, N: l.n, Param: param, Roots: []int{root, w.Rng.Intn(l.n)},
 			Parts: c18pOrders | c18pSCC | c18pSimp | c18pBi, Rep: w.Rng.PickI(0, 0, 0, 2, 2, 1)}
 		w.Hit("large-" + l.shape)
+		// Equal on every large graph; Subgraph* up to 8193 nodes and on two
+		// shapes at every size; Dot up to 2049 nodes
+		c.Parts |= c18pEqual
+		c.EqD = c18LargeDeltas(w.Rng, ladj)
+		w.Hit("large-graph-equal")
+		if l.n <= 8193 || l.shape == "layered" || l.shape == "sccchain" {
+			c.Parts |= c18pSub
+			c.Sub = c18RandSub(w.Rng, ladj)
+			if c.Sub.Nest == nil && i%2 == 0 {
+				c.Sub.Nest = c18RandNest(w.Rng, ladj, c.Sub)
+			}
+			w.Hit("large-graph-subgraph")
+		}
+		if l.n <= 2049 {
+			c.Parts |= c18pDot
+			c.Dot = c18RandDot(w.Rng, ladj)
+			w.Hit("large-graph-dot")
+		}
 		c18Judge(w, c)
 	})
 
